@@ -133,6 +133,7 @@ class Rewriter(ast.NodeTransformer):
         self.loop_stack: list[int] = []
         self.local_names = local_names
         self.depth = 0
+        self.self_name = None
 
     # -- helpers ----------------------------------------------------------
     def vc(self, name, *args, keywords=None):
@@ -226,6 +227,9 @@ class Rewriter(ast.NodeTransformer):
     def visit_Call(self, node):
         self.generic_visit(node)
         f = node.func
+        if isinstance(f, ast.Name) and f.id == "super" and not node.args and self.self_name:
+            # zero-argument super() needs the class cell, which an extracted function does not have
+            return ast.copy_location(self.vc("super_", ast.Name(id=self.self_name, ctx=ast.Load())), node)
         if isinstance(f, ast.Attribute) and not (isinstance(f.value, ast.Name) and f.value.id == "__vc"):
             if any(isinstance(a, ast.Starred) for a in node.args) or any(k.arg is None for k in node.keywords):
                 return node
@@ -407,6 +411,8 @@ def load(module: str, qualname: str, extra_globals: dict | None = None, *, vc=No
         fn.body = fn.body[1:] or [ast.Pass()]
     local_names = set(_assigned_names(fn.body)) | {a.arg for a in fn.args.args + fn.args.kwonlyargs + fn.args.posonlyargs}
     rw = Rewriter(info, local_names)
+    if fn.args.args:
+        rw.self_name = fn.args.args[0].arg
     fn = rw.visit(fn)
     fn.decorator_list = []
     fn.body.append(ast.Expr(value=rw.vc("ret", ast.Constant(value=None), rw.locals_call())))
